@@ -86,7 +86,9 @@ def main(args):
         run.rng.shuffle(js)
         js = js[:(400 if not thorough else 6000)]
         for i, c in enumerate(js):
-            streams.append({"ops": c["ops"], "workspace": i % 2 == 0, "seed": run.seed * 100003 + i})
+            # every other pair of streams is run "quiet": nothing of the harness orders the background jobs and the client
+            # stream before the very end, so that the race detector sees the server's own synchronisation and nothing else
+            streams.append({"ops": c["ops"], "workspace": i % 2 == 0, "seed": run.seed * 100003 + i, "quiet": (i // 2) % 2 == 1})
     if os.environ.get("C14_ONLY") == "gated":
         streams = []
     if os.environ.get("C14_ONLY") == "stress":
@@ -122,7 +124,7 @@ def main(args):
         sres = run.harness("stress", streams, race=True, timeout=3400, env_extra={"GORACE": "exitcode=0 history_size=4"}, args=("-par", "4"))
         err = run.last_harness_stderr
         for s, res in zip(streams, sres):
-            run.count(vf.digest([s["ops"], s["workspace"], s["seed"]]), True)
+            run.count(vf.digest([s["ops"], s["workspace"], s["seed"], s.get("quiet", False)]), True)
             if "panic" in res:
                 run.diverge("panic", "server panicked: " + res["panic"][:300], s, None)
             elif res.get("stuck"):
